@@ -69,15 +69,18 @@ Example select_charge_matters :
   = graph_to_mol (mol_to_graph ex_ion false false).
 Proof. split; [vm_compute; discriminate|reflexivity]. Qed.
 
-(** ** graph_to_smi with a non-empty preserve list: hydrogens without a heavy neighbour are dropped (known finding
-    graph_to_smi:preserve_atom_maps:bare-hydrogen-dropped): H2 becomes the empty molecule *)
+(** ** graph_to_smi with a non-empty preserve list: before repair 3ba7a77 hydrogens without a heavy neighbour were dropped
+    (finding graph_to_smi:preserve_atom_maps:bare-hydrogen-dropped, now fixed): H2 became the empty molecule; the repaired
+    code hands RDKit the same H2 with or without a preserve list *)
 Definition ex_h2m : gr :=
   LG [(1%N, NA (Some s_H) (Some false) (Some 0) (Some 0) (Some 0) None); (2%N, NA (Some s_H) (Some false) (Some 0) (Some 0) (Some 0) None)]
      [(1%N, 2%N, EA (Some (OS 2)) None)].
-Theorem preserve_bare_h_refuted :
+Theorem preserve_bare_h_old_refuted :
   exists (g : gr) (pres : list Z), gwfb g = true /\ total_h g = 2 /\
-    graph_to_smi_mol g [] <> Some ([], []) /\ graph_to_smi_mol g pres = Some ([], []).
+    graph_to_smi_mol_old g [] <> Some ([], []) /\ graph_to_smi_mol_old g pres = Some ([], []).
 Proof. exists ex_h2m, [3]. vm_compute. repeat split; discriminate. Qed.
+Example preserve_bare_h_kept_ex : graph_to_smi_mol ex_h2m [3] = graph_to_smi_mol ex_h2m [] /\ graph_to_smi_mol ex_h2m [] <> Some ([], []).
+Proof. vm_compute. split; [reflexivity|discriminate]. Qed.
 
 (** ** NXToGML.transform(attributes=...): the default ["charge"] is the writer of the round-trip theorems *)
 Lemma find_changed_sel_charge Lg Rg : find_changed_sel asel_charge Lg Rg = find_changed Lg Rg.
